@@ -190,7 +190,7 @@ theorem wrun_stream (cfg : WCfg) (x₁ : Bytes) (P₁ : Parser) (k : Nat) (tl : 
         have hp'eq : p' = withTotal P₁ n := by
           rw [← hclr]; cases p'; simp_all
         have hw1 : wseg cfg ({ request := p }, none) seg = (s1, none) := by
-          simp only [wseg, hp', hnc, Bool.false_eq_true, if_false, cw, cws, Bool.not_true, Bool.or_self, cutf, cr, hb]
+          simp only [wseg, hp', hnc, Bool.false_eq_true, if_false, cw, cws, Bool.not_true, cutf, cr, hb]
           simp [s1, hp'eq]
         obtain ⟨ns, hns, hloop⟩ := loopSegs_all (webHooks cfg) (wstepL cfg) (fun _ => True) (fun _ _ _ _ => rfl) segs
           hne' tl (fun r hr' => (hl r hr').1) (hl.good cfg) [] none ⟨.inl ⟨rfl, rfl⟩, fun _ => rfl⟩ (.inl rfl)
@@ -210,7 +210,7 @@ theorem wrun_stream (cfg : WCfg) (x₁ : Bytes) (P₁ : Parser) (k : Nat) (tl : 
         have hw1 : wseg cfg ({ request := p }, none) seg =
             ({ s1 with out := s1.out ++ (handed done ns).map (cfg.respond k),
                        calls := s1.calls ++ (handed done ns).map (fun P => (k, P)) }, pl') := by
-          simp only [wseg, hp', hnc, Bool.false_eq_true, if_false, cw, cws, Bool.not_true, Bool.or_self, cutf, cr, hb,
+          simp only [wseg, hp', hnc, Bool.false_eq_true, if_false, cw, cws, Bool.not_true, cutf, cr, hb,
             wdata, hclr]
           have hk' : isKeepAlive (withTotal P₁ n) = true := hka
           simp only [hk', Bool.not_true, Bool.false_eq_true, if_false]
